@@ -250,6 +250,11 @@ func checkArrayAlgebra(p *Program, r *Report, prop string) {
 	}
 	r.Floor("R01.4", "stride/shape constructions", n4, floor4)
 
+	for _, at := range arrayTypes(p) {
+		if sl := at.own("Slice"); sl != nil {
+			sliceSharesStorage(sl) // records the helpers that build views (viewBuilders)
+		}
+	}
 	checkNoDoubleStep(p, r, prop)
 	checkAccessorSiblings(p, r, only)
 	r.Rule("R01.5", "views are live: a view object holds nothing but strides and the shared storage (no second element buffer), and what Unroll hands out is the storage itself or gathered in the same call, never a copy cached in the view")
@@ -339,6 +344,9 @@ func unitShow(got, want unit) string {
 	return got.String()
 }
 
+// viewBuilders: helper methods that build the view Slice returns (found by R01.2)
+var viewBuilders = map[*ssa.Function]bool{}
+
 // sliceSharesStorage: every return of Slice is a fresh struct whose Impl field is stored exactly the receiver's Impl.
 func sliceSharesStorage(fn *ssa.Function) string {
 	recv := fn.Params[0]
@@ -349,6 +357,18 @@ func sliceSharesStorage(fn *ssa.Function) string {
 			}
 			a, ok := stripConv(o).(*ssa.Alloc)
 			if !ok {
+				// the view may be built by a helper method of the same type on the same receiver
+				// (`return nd.view(loc, dims, step)`): judged there
+				if c, isCall := stripConv(o).(*ssa.Call); isCall {
+					if h := c.Common().StaticCallee(); h != nil && h != fn && h.Blocks != nil && InModule(h) && h.Signature.Recv() != nil &&
+						len(c.Common().Args) > 0 && c.Common().Args[0] == ssa.Value(recv) && types.Identical(h.Signature.Recv().Type(), fn.Signature.Recv().Type()) {
+						if why := sliceSharesStorage(h); why != "" {
+							return why + " (in " + h.Name() + ")"
+						}
+						viewBuilders[h] = true
+						continue
+					}
+				}
 				return "returned value is not a freshly allocated view struct"
 			}
 			nStores := 0
@@ -480,7 +500,7 @@ func guardedByContiguous(b *ssa.BasicBlock, accept func(recv ssa.Value) bool) bo
 // operation on v itself (Apply, ApplySlice, Slice) is given a step derived from that same step vector: v's own
 // indices already advance by it, so applying it again addresses loc + i*step² of the parent.
 func checkNoDoubleStep(p *Program, r *Report, prop string) {
-	r.Rule("R01.6", "a step is applied once: an operation on a view that was cut with Slice(·,·,step) is never given a step derived from that same step vector (the view's indices already advance by it)")
+	r.Rule("R01.6", "a step is applied once: an operation on a view that was cut with Slice(·,·,step) is never given a step derived from that same step vector, and an element access of such a view never scales its index by that step (the view's indices already advance by it)")
 	n := 0
 	for _, fn := range dataFuncs(p) {
 		inC := relPkg(fnPkg(fn).Path()) == "data/cdata"
@@ -498,6 +518,8 @@ func checkNoDoubleStep(p *Program, r *Report, prop string) {
 				stepArg = 1
 			case "Slice":
 				stepArg = 2
+			case "Get", "Set":
+				stepArg = 0 // the index vector: its elements must not be scaled by the view's own step
 			}
 			recv := recvOf(c.Common())
 			args := callArgs(c.Common())
@@ -506,8 +528,28 @@ func checkNoDoubleStep(p *Program, r *Report, prop string) {
 			}
 			// the receiver is the result of a Slice with a step vector
 			var cut *ssa.Call
+			var cands []ssa.Value
 			for _, o := range origins(recv) {
-				if oc, ok := stripConv(o).(*ssa.Call); ok && callName(oc.Common()) == "Slice" && len(callArgs(oc.Common())) == 3 {
+				cands = append(cands, o)
+				// inside a visitor closure the view is a captured variable of the enclosing method
+				if u, ok := o.(*ssa.UnOp); ok {
+					if _, isFree := u.X.(*ssa.FreeVar); isFree {
+						for _, pv := range resolveCapturedLoad(u) {
+							cands = append(cands, origins(pv)...)
+						}
+					}
+				}
+			}
+			for _, o := range cands {
+				if o == nil {
+					continue
+				}
+				oc, ok := stripConv(o).(*ssa.Call)
+				if !ok || len(callArgs(oc.Common())) != 3 {
+					continue
+				}
+				// Slice, or the helper of the same type that builds the view for it (`nd.view(loc, dims, step)`)
+				if callName(oc.Common()) == "Slice" || viewBuilders[oc.Common().StaticCallee()] {
 					cut = oc
 				}
 			}
@@ -522,6 +564,58 @@ func checkNoDoubleStep(p *Program, r *Report, prop string) {
 			k++
 			key := fmt.Sprintf("%s:double-step#%d", FuncKey(fn), k)
 			base := origin1(stepVec)
+			if nm == "Get" || nm == "Set" {
+				// what was stored into the step vector (other than constants) …
+				stepSrc := map[ssa.Value]bool{}
+				elemStores := func(vec ssa.Value) []*ssa.Store {
+					var out []*ssa.Store
+					for _, ref := range refsDeep(vecBaseDeep(vec)) {
+						ia, ok := ref.(*ssa.IndexAddr)
+						if !ok {
+							continue
+						}
+						for _, r2 := range refs(ia) {
+							if st, ok := r2.(*ssa.Store); ok && st.Addr == ssa.Value(ia) {
+								out = append(out, st)
+							}
+						}
+					}
+					return out
+				}
+				for _, st := range elemStores(base) {
+					if _, isConst := st.Val.(*ssa.Const); !isConst {
+						if o := origin1(st.Val); o != nil {
+							stepSrc[o] = true
+						}
+						stepSrc[st.Val] = true
+					}
+				}
+				// … must not scale an element of the index vector
+				scaled := false
+				if ib := origin1(args[0]); ib != nil {
+					for _, st := range elemStores(ib) {
+						if dependsOn(st.Val, func(x ssa.Value) bool {
+							if stepSrc[x] {
+								return true
+							}
+							if u, ok := x.(*ssa.UnOp); ok {
+								if ia, ok := u.X.(*ssa.IndexAddr); ok && (ia.X == stepVec || origin1(ia.X) == base) {
+									return true
+								}
+							}
+							return false
+						}, map[ssa.Value]bool{}) {
+							scaled = true
+						}
+					}
+				}
+				if scaled {
+					r.Fail("R01.6", key, p.Pos(c.Pos()), fmt.Sprintf("%s addresses a view that was cut with a step vector through an index that is itself multiplied by that step: the step is applied twice (element i lands at loc + i·step² of the parent, outside the run the view stands for)", nm))
+				} else {
+					r.OK("R01.6", fmt.Sprintf("%s: %s on a stepped view indexes it in the view's own coordinates", FuncKey(fn), nm))
+				}
+				continue
+			}
 			derived := dependsOn(args[stepArg], func(x ssa.Value) bool {
 				if x == stepVec || x == base {
 					return true
